@@ -150,7 +150,9 @@ def strategy_(draw, tier):
             'subs': [], 'mec': draw(st.sampled_from([None, None, 1])), 'history': False}
   recipe = draw(dags.dag(
       max_nodes=8, min_nodes=2, leaf_profile='any_enum', bts=('Config', 'Config', 'Partial'),
-      kinds=['B', 'B', 'B', 'list', 'tuple', 'dict', 'kdict', 'Bpos', 'AFP', 'set', 'nt'],
+      kinds=['B', 'B', 'B', 'list', 'tuple', 'dict', 'kdict', 'Bpos', 'AFP', 'set', 'nt',
+             # further node kinds of the shared generator that this check's oracle handles (each once)
+             'box', 'mdict', 'fset', 'ltuple', 'ntuple', 'Bmut', 'Bmut1', 'Bmutnest', 'Bpo', 'Bpo3', 'Bdc', 'Bempty', 'holder', 'dcinst', 'Bclash'],
       fns=['things:f2', 'things:h1', 'things:Base', 'things:LeafCls', 'things:kwnames', 'things:Lambda'],
       root_kinds=['B'], p_alias=0.8, allow_copyof=False, tags=True))
   r = draw(st.floats(0, 1))
